@@ -23,8 +23,12 @@
 (***************************************************************************)
 EXTENDS Numbers
 
-CONSTANT NonTailIf   \* BOOLEAN, FALSE in the specification proper.  TRUE gives a deliberately broken machine
-                     \* that keeps a frame while the selected arm of an if runs (sensitivity check of C02)
+CONSTANT Broken      \* "none" in the specification proper.  Other values select a deliberately broken machine,
+                     \* used only to show that TLC rejects it (sensitivity of the properties checked on the model):
+                     \*   "nontail-if"      keeps a frame while the selected arm of an if runs        (C02)
+                     \*   "set-defines"     set! of a non-local variable defines it in the current frame (C03)
+                     \*   "copy-on-bind"    a vector bound to a parameter is copied                   (C03)
+NonTailIf == Broken = "nontail-if"
 CONSTANT GC    \* BOOLEAN: collect unreachable frames at calls and reuse the smallest free id
                \* (makes non-terminating tail loops finite-state, C02)
 
@@ -325,11 +329,16 @@ ApplyClosure(s, f, args, k) ==
   LET lam == f.lam
       np == Len(lam.ps)
   IN IF Len(args) < np \/ (Len(args) > np /\ lam.rest = "") THEN Fail(s, "Arity")
-     ELSE LET fixed == [x \in {lam.ps[i] : i \in 1..np} |->
-                           args[CHOOSE i \in 1..np : lam.ps[i] = x /\ \A j \in (i + 1)..np : lam.ps[j] # x]]
+     ELSE LET copied == IF Broken = "copy-on-bind" /\ \E i \in DOMAIN args : args[i].t = "vec"
+                        THEN LET i == CHOOSE i \in DOMAIN args : args[i].t = "vec" IN
+                             [vecs |-> Append(s.vecs, s.vecs[args[i].id]),
+                              args |-> [args EXCEPT ![i] = [t |-> "vec", id |-> Len(s.vecs) + 1]]]
+                        ELSE [vecs |-> s.vecs, args |-> args]
+              fixed == [x \in {lam.ps[i] : i \in 1..np} |->
+                           copied.args[CHOOSE i \in 1..np : lam.ps[i] = x /\ \A j \in (i + 1)..np : lam.ps[j] # x]]
               vars == IF lam.rest = "" THEN fixed
                       ELSE Bind(fixed, lam.rest, MkList(SubSeq(args, np + 1, Len(args))))
-              n == NewFrame([s EXCEPT !.ctrl = Ap(f, args), !.kont = k], f.env, vars)   \* fresh bindings per call
+              n == NewFrame([s EXCEPT !.ctrl = Ap(f, args), !.kont = k, !.vecs = copied.vecs], f.env, vars)   \* fresh bindings per call
           IN StartBody(n.st, lam.defs, lam.body, n.fid, k)
 
 \* continue a list-walking library procedure (map / for-each / folds): call f on the next element
@@ -434,6 +443,9 @@ ReturnStep(s) ==
             IN StartBody(s1, fr.defs, fr.body, fr.env, k)
        [] fr.k = "set" ->
             LET f == DefiningFrame(s.frames, fr.env, fr.x) IN
+            IF Broken = "set-defines" /\ f # fr.env /\ f # 0
+            THEN [s EXCEPT !.frames[fr.env].vars = Bind(@, fr.x, v), !.ctrl = Ret(Unspec), !.kont = k]
+            ELSE
             IF f # 0 THEN [s EXCEPT !.frames[f].vars[fr.x] = v, !.ctrl = Ret(Unspec), !.kont = k]
             ELSE IF fr.x \in PrimNames     \* a (scheme base) name is a binding of the top-level environment
                  THEN [s EXCEPT !.frames[GlobalFrame].vars = Bind(@, fr.x, v), !.ctrl = Ret(Unspec), !.kont = k]
